@@ -1,6 +1,7 @@
 From Coq Require Extraction ExtrOcamlBasic.
 From PV Require Import Lib.Bytes Model.MkLexPrim Model.MkLexer Model.MkTokensLexer Model.MkLineSplit
-  Model.VaralignSplit Spec.MkPartition.
+  Model.VaralignSplit Spec.MkPartition Model.MatchVarassign.
+From PV Require Model.Lines.
 
 (* the drain loop of the shim's VerifMkTokensLexer, on the model *)
 Fixpoint tl_drain (fuel : nat) (m : tlexer) : list token * str :=
@@ -32,7 +33,13 @@ Definition c10_varalign := varalign_split.
 Definition c10_varassign := parse_varassign.
 Definition c10_raw_value_align := get_raw_value_align.
 Definition c10_unescape_hash := unescape_hash.
+(* every logical line of a file: (text, number of raw lines, matchVarassign) *)
+Definition c10_varassign_file (raw : str) : res (list (str * nat * res (option varassign))) :=
+  bind (varassign_of_file raw) (fun ls =>
+    Ok (map (fun lr : Lines.line * res (option varassign) =>
+      (Lines.text (fst lr), length (Lines.raws (fst lr)), snd lr)) ls)).
 
 Extraction "C10mk_model.ml" c10_mktokens c10_expr c10_varname c10_tokenize c10_tokenslexer
   c10_unescape_comment c10_split c10_varalign c10_varassign c10_raw_value_align c10_unescape_hash
+  c10_varassign_file
   parts_string.
